@@ -1,7 +1,7 @@
 (* C12 — property theorems only (real-number semantics of the model text, instance RNum).
    Each is closed by [exact] of a lemma from proofs/C12_ISA.v or proofs/C12_Proofs.v. *)
 From Coq Require Import ZArith Reals List String Bool.
-From AV Require Import lib.Num lib.FloatMath model.C12_Base model.C12_Model proofs.C12_ISA proofs.C12_Proofs.
+From AV Require Import lib.Num lib.FloatMath model.C12_Base model.C12_Model proofs.C12_ISA proofs.C12_Proofs proofs.C12_MEEM.
 Import ListNotations.
 Local Open Scope R_scope.
 
@@ -170,11 +170,74 @@ Theorem C12_pm_nonneg :
 Proof. exact (conj pmvol_foa3_nonneg (conj pmvol_fuelflow_positive scope11_mode_nonneg)). Qed.
 Print Assumptions C12_pm_nonneg.
 
-(* MEEM, partial: proved are (i) the reference indices interpolated from non-negative mode indices are
-   non-negative, (ii) the altitude adjustment is positive and the number index equals reference number index x
-   the same positive factor, (iii) the compressor pressure ratio is positive for every point that is not a
-   climbing point below 3000 m.  NOT proved: the composed statement about meem_point / meem over whole
-   trajectories (finiteness of the thermodynamic chain, the reconstruction branches) — checked numerically. *)
+(* above the tropopause the temperature is constant and the pressure keeps falling strictly *)
+Theorem C12_isa_stratosphere :
+  (forall h : R, @c_htrop RNum < h ->
+     @isa_temperature RNum h = @c_T0 RNum + @c_beta RNum * @c_htrop RNum /\ @isa_pressure RNum h < @isa_ptrop RNum) /\
+  (forall h1 h2 : R, @c_htrop RNum < h1 -> h1 < h2 -> @isa_pressure RNum h2 < @isa_pressure RNum h1).
+Proof. exact (conj isa_stratosphere isa_stratosphere_decreasing). Qed.
+Print Assumptions C12_isa_stratosphere.
+
+(* ---- MEEM: the whole per-point pipeline meem_point = meem_emit . meem_thermo ------------------------------ *)
+(* the guard region (non-negative pressure coefficient) and its complement (contains all of finding FC12b) *)
+Theorem C12_meem_guard_region :
+  (forall pr hmax hp h : R, 1 < pr -> @meem_p3_ratio RNum pr hmax hp h <= 0 -> @meem_guard RNum hmax hp h = false) /\
+  (forall pr hmax hp h : R, 1 < pr -> @meem_guard RNum hmax hp h = true -> 1 <= @meem_p3_ratio RNum pr hmax hp h) /\
+  (forall hmax hp h : R, (h <= hp \/ 3000 <= h) -> h <= hmax -> @meem_guard RNum hmax hp h = true).
+Proof. exact (conj meem_fc12b_outside_guard (conj meem_guard_ratio meem_guard_region)). Qed.
+Print Assumptions C12_meem_guard_region.
+Example C12_meem_guard_nonvacuous : @meem_guard RNum 11000 3000 6000 = true /\ @meem_guard RNum 2500 0 1000 = false.
+Proof. exact ex_guard. Qed.
+
+(* inside the guard every denominator is non-zero and every base of a real power is positive *)
+Theorem C12_meem_denominators_nonzero :
+  (forall pr pc eta Ta P M : R, 1 < pr -> 0 <= pc -> (eta = 22 / 25 \/ eta = 7 / 10) -> 0 < Ta -> 0 < P ->
+     let T3 := @meem_T3 RNum Ta P M pc pr eta in
+     0 < @meem_stag RNum M /\ 0 < @meem_Pt RNum P M /\ eta <> 0 /\ 1 <= @meem_P3 RNum P M pc pr / @meem_Pt RNum P M /\
+     0 < @meem_P3 RNum P M pc pr /\ 0 < T3 /\ @c_T0 RNum <> 0 /\ 0 < 1 + eta * (T3 / @c_T0 RNum - 1) /\
+     0 < @meem_P3ref RNum T3 eta /\ @c_p0 RNum <> 0 /\ pr - 1 <> 0 /\
+     0 < @meem_P3 RNum P M pc pr / @meem_P3ref RNum T3 eta) /\
+  (forall hp h : R, @meem_eta RNum hp h = 22 / 25 \/ @meem_eta RNum hp h = 7 / 10) /\
+  (forall hmax : R, 0 < @nmax RNum (@q RNum 1 1) (hmax - @q RNum 3000 1)).
+Proof. exact (conj meem_thermo_wellformed (conj meem_eta_cases meem_lin_denominator_pos)). Qed.
+Print Assumptions C12_meem_denominators_nonzero.
+
+(* positive certification data + guard + physical ambient state => GMD >= 20 nm, mass and number index > 0,
+   and the last denominator (1e-3 x reference mass index) is non-zero; for single points and whole trajectories *)
+Theorem C12_meem_nonneg :
+  (forall (e : redb) (P3 P3ref F : R), edb_ok e -> 0 < P3 -> 0 < P3ref ->
+     let mass := @meem_mass_modes RNum e in
+     let ref_mass := @ninterp RNum F (@meem_grid RNum mass (e_mass_max e) (e_mass_kind e)) in
+     let '(gmd, ei_mass, ei_num) := @meem_emit RNum e (P3, P3ref, F) in
+     @q RNum 1 1000 * ref_mass <> 0 /\ 20 <= gmd /\ 0 < ei_mass /\ 0 < ei_num) /\
+  (forall (e : redb) (hmax hp h Ta P M : R), edb_ok e -> @meem_guard RNum hmax hp h = true -> 0 < Ta -> 0 < P ->
+     out_ok (@meem_point RNum e hmax hp h Ta P M)) /\
+  (forall (e : redb) (l : list (R * R * R * R)), edb_ok e -> ambient_ok l ->
+     match l with
+     | [] => @meem RNum e l = []
+     | (h0, _, _, _) :: r =>
+         let hmax := @list_max RNum (map (fun p => let '(h, _, _, _) := p in h) r) h0 in
+         Forall2 (fun g o => g = true -> out_ok o) (guards_from hmax h0 l) (@meem RNum e l)
+     end).
+Proof. exact (conj meem_emit_nonneg (conj meem_point_nonneg meem_whole_trajectory_nonneg)). Qed.
+Print Assumptions C12_meem_nonneg.
+Example C12_meem_nonneg_nonvacuous : edb_ok ex_edb /\ tpos (e_mass ex_edb) /\ tpos (e_num ex_edb).
+Proof. exact ex_edb_ok. Qed.
+
+(* linear in the certification mass indices (modes and maximum) and in the certification number indices *)
+Theorem C12_meem_scales_with_cert_EI :
+  (forall (k : R) (e : redb) (hmax hp h Ta P M : R), 0 < k -> tpos (e_mass e) -> 0 < e_mass_max e -> tpos (e_num e) ->
+     let '(gmd, ei_mass, ei_num) := @meem_point RNum e hmax hp h Ta P M in
+     @meem_point RNum (edb_scale_mass k e) hmax hp h Ta P M = (gmd, k * ei_mass, ei_num)) /\
+  (forall (k : R) (e : redb) (hmax hp h Ta P M : R), 0 < k -> tpos (e_num e) ->
+     let '(gmd, ei_mass, ei_num) := @meem_point RNum e hmax hp h Ta P M in
+     @meem_point RNum (edb_scale_num k e) hmax hp h Ta P M = (gmd, ei_mass, k * ei_num)) /\
+  (forall k mv m, @meem_recon_num RNum (k * mv) m = k * @meem_recon_num RNum mv m).
+Proof. exact (conj meem_point_scales_mass (conj meem_point_scales_num meem_recon_scales)). Qed.
+Print Assumptions C12_meem_scales_with_cert_EI.
+
+(* the component lemmas the theorems above are assembled from (kept: they hold under weaker hypotheses).
+   Still NOT proved for MEEM: anything about binary64 (overflow / NaN) — that is the correspondence's job. *)
 Theorem C12_meem_nonneg_partial :
   (forall (b F : R) (v : tm) (vmax : R) (kind : maxkind),
       (let '(a0, a1, a2, a3) := v in b <= a0 /\ b <= a1 /\ b <= a2 /\ b <= a3) -> b <= vmax ->
